@@ -530,7 +530,7 @@ class RawVoltageBackend(object):
                                 
                                 # If digitizing real voltages, scale up by the appropriate factor
                                 if digitize:
-                                    custom_stds *= self.digitizer[antenna][pol].target_std
+                                    custom_stds = custom_stds * self.digitizer[antenna][pol].target_std
                                 v = self.requantizer[antenna][pol].quantize(v, custom_stds=custom_stds)
                                 
                                 self.requantizer[antenna][pol].quantizer_r.target_mean = temp_mean_r
